@@ -342,6 +342,14 @@ impl<'a> Gen<'a> {
                         break;
                     }
                 }
+                // nearly valid: a point/comma and digits directly after an octal/hex constant.
+                // TeX (§448: a fraction is scanned only `if (radix=10) and (cur_tok=point_token)`)
+                // stops the number there, reports the missing unit and leaves `.5pt` in the input.
+                if self.rng.chance(1, 4) {
+                    let sep = if self.rng.chance(1, 4) { ',' } else { '.' };
+                    let frac = self.fraction_digits();
+                    s = format!("{}{sep}{frac}", s.trim_end());
+                }
                 s
             }
             3 => format!("\\the{}", self.reg("count")),
